@@ -118,6 +118,11 @@ impl TxWal {
     /// Returns an error if the file cannot be opened or created.
     pub fn open_with_config(path: impl AsRef<Path>, config: WalConfig) -> io::Result<Self> {
         let path = path.as_ref().to_path_buf();
+
+        // A crash can leave an incomplete record at the end of the file. Replay stops in front
+        // of it, so anything appended behind it would be unreadable: drop the torn tail first.
+        Self::trim_torn_tail(&path)?;
+
         let file = OpenOptions::new().create(true).append(true).open(&path)?;
 
         // Get current file size
@@ -132,6 +137,36 @@ impl TxWal {
             current_size,
             config,
         })
+    }
+
+    /// Truncate the file to its longest prefix of complete `[length][checksum][payload]` records.
+    fn trim_torn_tail(path: &Path) -> io::Result<()> {
+        use std::io::{Seek, SeekFrom};
+
+        let file_len = match std::fs::metadata(path) {
+            Ok(m) => m.len(),
+            Err(e) if e.kind() == io::ErrorKind::NotFound => return Ok(()),
+            Err(e) => return Err(e),
+        };
+        let mut file = File::open(path)?;
+        let mut pos = 0u64;
+        while pos + 8 <= file_len {
+            let mut len_buf = [0u8; 4];
+            file.seek(SeekFrom::Start(pos))?;
+            file.read_exact(&mut len_buf)?;
+            let end = pos + 8 + u64::from(u32::from_le_bytes(len_buf));
+            if end > file_len {
+                break;
+            }
+            pos = end;
+        }
+        drop(file);
+        if pos < file_len {
+            let file = OpenOptions::new().write(true).open(path)?;
+            file.set_len(pos)?;
+            file.sync_all()?;
+        }
+        Ok(())
     }
 
     /// Count entries in an existing WAL file.
